@@ -362,7 +362,10 @@ def _generic(args, cfg, prop, tier, t0, known, open_f, quarantine, run_dir, scra
             w = pending.pop(0)
             os.makedirs(w[2], exist_ok=True)
             lf = open(os.path.join(w[2], "log.txt"), "w")
-            p = subprocess.Popen(w[3], stdout=lf, stderr=subprocess.STDOUT, env=worker_env.get((w[0], w[1])))
+            wenv = dict(worker_env.get((w[0], w[1])) or os.environ)
+            wenv["TMPDIR"] = os.path.join(scratch, "tmp")      # whatever libast's temp-file helper creates lands in the run directory
+            os.makedirs(wenv["TMPDIR"], exist_ok=True)
+            p = subprocess.Popen(w[3], stdout=lf, stderr=subprocess.STDOUT, env=wenv)
             running.append((w, p, lf, time.time()))
         time.sleep(0.05)
         still = []
